@@ -4,6 +4,7 @@ The prover executes them symbolically with every call into the repository replac
 body), and every `assert cond, "label"` becomes a named obligation `ghost.<fn>:assert:<label>`.  The native harness
 runs the same text against the real code.  They contain no repository logic of their own."""
 from space_packet_parser.packets import RawPacketData, ccsds_generator, create_ccsds_packet
+from space_packet_parser.xtce.encodings import FloatDataEncoding
 from specs.oracles import *  # noqa: F401,F403  (spec functions may be used in assertions)
 
 
@@ -134,6 +135,42 @@ def c13_reframe(data, version_number, type, secondary_header_flag, apid, sequenc
     assert len(out) <= 1, "at_most_one"
     assert out[0] == T, "same_bytes"
     return out
+
+
+# ---- C04: what the float constructor stores (the REAL __init__ body is executed, not a contract) ----------------------
+def c04_float_ctor(size_in_bits, encoding, byte_order, data):
+    """C04: for every (encoding, size, byte order) the constructor accepts, the parsing function it stores decodes four /
+    size/8 bytes as the MIL-STD-1750A value, or as struct.unpack (E2) with exactly the format character of the size and
+    the byte-order mark of the declared byte order."""
+    enc = FloatDataEncoding(size_in_bits, encoding=encoding, byte_order=byte_order)
+    assert enc.size_in_bits == size_in_bits, "size_kept"
+    assert enc.byte_order == byte_order, "byte_order_kept"
+    if encoding == 'MILSTD_1750A' or encoding == 'MIL-1750A':
+        assert enc.encoding == 'MILSTD_1750A', "encoding_mil"
+        assert size_in_bits == 32, "mil_is_32_bits"
+        got = enc.parse_func(data)
+        if byte_order == 'leastSignificantByteFirst':
+            assert got == mil1750a(le(data)), "mil_little_endian"
+        else:
+            assert got == mil1750a(be(data)), "mil_big_endian"
+    else:
+        assert enc.encoding != 'MILSTD_1750A', "encoding_ieee"
+        mark = '<' if byte_order == 'leastSignificantByteFirst' else '>'
+        if size_in_bits == 16:
+            assert enc._struct_format == mark + 'e', "format_16"
+        elif size_in_bits == 32:
+            assert enc._struct_format == mark + 'f', "format_32"
+        else:
+            assert size_in_bits == 64, "ieee_size"
+            assert enc._struct_format == mark + 'd', "format_64"
+        got = enc.parse_func(data)
+        if size_in_bits == 16:
+            assert feq(got, ieee(mark + 'e', data)), "ieee_value_16"
+        elif size_in_bits == 32:
+            assert feq(got, ieee(mark + 'f', data)), "ieee_value_32"
+        else:
+            assert feq(got, ieee(mark + 'd', data)), "ieee_value_64"
+    return enc
 
 
 # ---- C09 / C15: write -> load round trips (bounded: lxml is outside the prover's reach, E6) ----------------------------
